@@ -426,10 +426,20 @@ package object
 //@ callpre[C08.proxy.field.valid] FieldByName: rvalid(recv)
 //@ callpre[C08.proxy.set.assignable] Set: assignable(arg0, recv)
 
+// StructConverter.To, proxy case: the wrapped pointer is dereferenced only when it is valid (KF-54 fixed: a nil
+// pointer where a struct value is expected) and what is returned is assignable to the converter's struct type
+// (KF-55 fixed: the proxy of a value of another struct type was returned as it was).
 //@ func (*StructConverter).To
 //@ props C08
-//@ trusted callpre
+//@ trusted except C08.struct.to.type
+//@ assume[args.wf] c != nil && obj != nil && ref(obj) != nil
 //@ callpre[C08.struct.set.assignable] Set: assignable(arg0, recv)
+//@ callpre[C08.struct.deref.valid] Interface: rvalid(recv)
+//@ ensures[C08.struct.to.type] typeof(obj) == *Proxy && err == nil ==> result0 != nil && uf("rt.assignable", bool, uf("go.typeof", reflect.Type, result0), c.typ)
+
+// Proxy.call: a variadic method whose variadic parameter was supplied (as a list, converted to a slice) is invoked
+// with CallSlice, never with Call (KF-56 fixed).
+// (the clause is part of the unit (*Proxy).call in contracts_c05_verif.go)
 
 // ErrorConverter: a nil error converts to nil (KF-45 fixed: the unconditional assertion to error panicked on a nil
 // interface); the dispatcher sends it only values of types that implement error.
